@@ -26,8 +26,11 @@ def cases(run: Run):
         out.append({
             "dt": rng.choice([60, 60, 30]), "steps": rng.randint(3, 5), "ns": rng.randint(1, 2), "nt": rng.randint(2, 3), "prop": rng.choice(["two_body", "special_perturbations"]),
             "start_sec": rng.choice([0, 17]), "seed": rng.randint(1, 10**6), "impulse": rng.random() < 0.6,
-            "variants": rng.sample(["truth_only", "greedy", "noise_seed", "out2", "split", "order", "extra_target", "extra_sensor", "fewer_targets", "random_decision", "filter_model", "filter_model", "no_additions"], run.n(6, 9)),
+            "variants": rng.sample(["truth_only", "greedy", "noise_seed", "out2", "split", "order", "extra_target", "extra_sensor", "fewer_targets", "random_decision", "filter_model", "filter_model", "no_additions",
+                                    "drop_first", "drop_first", "reorder"], run.n(7, 10)),
             "additions": rng.choice([2, 2, 0, 1]),
+            # radiation pressure on, and every target with its own mass and area: a satellite's truth must not depend on which other satellites exist
+            "srp": rng.random() < 0.6, "fresh": rng.choice(["drop_first", "drop_first", "reorder", "base"]),
         })
     return out
 
@@ -44,6 +47,10 @@ def build(c, v):
         tids = tids + [3]
     if v == "fewer_targets":
         tids = tids[:-1]
+    if v == "drop_first":
+        tids = tids[1:]
+    if v == "reorder":
+        tids = tids[::-1]
     sensors = [scen.radar_cfg(60001 + k, *SITES[k]) for k in range(ns)]
     targets = []
     for k in tids:
@@ -53,12 +60,14 @@ def build(c, v):
         r = eci[:3]
         vv = np.cross([0, 0, 1.0], r)
         vv = vv / np.linalg.norm(vv) * np.sqrt(398600.4418 / np.linalg.norm(r))
-        targets.append(scen.target_cfg(10001 + k, r, vv))
+        tc = scen.target_cfg(10001 + k, r, vv)
+        tc["platform"].update(mass=[2000.0, 100.0, 650.0, 40.0][k], visual_cross_section=[2.0, 40.0, 9.0, 12.0][k])
+        targets.append(tc)
     decision = {"greedy": "MyopicNaiveGreedyDecision", "random_decision": "RandomDecision"}.get(v, "MunkresDecision")
     eng = [scen.engine_cfg(1, targets, sensors, decision=decision, seed=5)]
     events = []
-    if c["impulse"]:
-        events.append({"scope": "agent_propagation", "scope_instance_id": 10001, "start_time": scen.iso(start + timedelta(seconds=c["dt"] * 2)),
+    if c["impulse"] and 1 in tids:  # the manoeuvring target is the second one; a variant that leaves it out has no such event
+        events.append({"scope": "agent_propagation", "scope_instance_id": 10002, "start_time": scen.iso(start + timedelta(seconds=c["dt"] * 2)),
                        "end_time": scen.iso(start + timedelta(seconds=c["dt"] * 2)), "event_type": "impulse", "thrust_vector": [0.0, 0.01, 0.0], "thrust_frame": "ntw", "planned": False})
     # targets that join at run time (scenario-step events): their truth must not depend on estimation settings either
     for j in range(c.get("additions", 0) if v != "no_additions" else 0):
@@ -73,6 +82,8 @@ def build(c, v):
                        "tasking_engine_id": 1, "target_agent": scen.target_cfg(10101 + j, r, vv)})
     cfg = scen.scenario_cfg(start, c["dt"], c["dt"] * (c["steps"] + 1), eng, out_step=(2 * c["dt"] if v == "out2" else c["dt"]), truth_only=(v == "truth_only"),
                             seed=(c["seed"] + 1 if v == "noise_seed" else c["seed"]), events=events, prop=c["prop"])
+    if c.get("srp") and c["prop"] == "special_perturbations":
+        cfg["perturbations"]["solar_radiation_pressure"] = True
     if v == "filter_model":
         other = "special_perturbations" if c["prop"] == "two_body" else "two_body"
         cfg["estimation"]["sequential_filter"]["dynamics_model"] = other
@@ -130,6 +141,22 @@ def run_variant(c, v):
     return {"traj": traj, "stored": stored}
 
 
+def run_variant_fresh(c, v):
+    """the same run in a fresh interpreter: whatever the process has cached from earlier scenarios (module-level memos) is not there"""
+    import os
+    import subprocess
+
+    p = subprocess.run([sys.executable, "-u", str(Path(__file__).resolve()), "--worker", json.dumps({"c": c, "v": v})], capture_output=True, text=True,
+                       timeout=1200, env=dict(os.environ))
+    for line in p.stdout.splitlines():
+        if line.startswith("WORKER-RESULT "):
+            r = json.loads(line[len("WORKER-RESULT "):])
+            r["stored"] = {int(a): {float(jd): dg for jd, dg in per.items()} for a, per in r["stored"].items()}
+            r["traj"] = [None if t is None else {int(a): dg for a, dg in t.items()} for t in r["traj"]]
+            return r
+    raise RuntimeError("fresh-process run produced no result: " + (p.stderr or p.stdout)[-400:])
+
+
 def compare(run: Run, c, base, other, v):
     fails = []
     for k, (a, b) in enumerate(zip(base["traj"], other["traj"])):
@@ -167,6 +194,18 @@ def run_cases(run: Run, cs):
             run.model_compared += 1
             for key, what in compare(run, c, base[1], other[1], v):
                 run.fail(key, {**c, "variant": v}, what)
+        # one more comparison per scenario against a run in a fresh process (with a different set or order of agents): the truth of
+        # an agent must not depend on what the process built before either
+        fv = c.get("fresh") or "drop_first"
+        fresh = guarded(run_variant_fresh, c, fv)
+        run.count(f"variant:fresh:{fv}")
+        run.case("pair", {"scenario_seed": c["seed"], "variant": "fresh:" + fv, "prop": c["prop"]}, nontrivial=True, branch="variant:fresh-process")
+        if fresh[0] != "ok":
+            run.fail("raises", {**c, "variant": "fresh:" + fv}, f"fresh-process variant {fv}: {fresh[1]}")
+        else:
+            run.model_compared += 1
+            for key, what in compare(run, c, base[1], fresh[1], "fresh-process:" + fv):
+                run.fail(key, {**c, "variant": "fresh:" + fv}, what)
         scen.cleanup()
 
 
@@ -180,7 +219,19 @@ def search(run: Run):
     return sub.oracle_failures[0] if sub.oracle_failures else None
 
 
+def worker_main():
+    job = json.loads(sys.argv[sys.argv.index("--worker") + 1])
+    import logging
+
+    logging.getLogger("resonaate").setLevel(logging.CRITICAL)
+    r = run_variant(job["c"], job["v"])
+    scen.cleanup()
+    print("WORKER-RESULT " + json.dumps(r))
+
+
 def main():
+    if "--worker" in sys.argv:
+        return worker_main()
     run = Run(
         PID,
         ["RV.Props.C10"],
@@ -193,7 +244,7 @@ def main():
         ],
     )
     run.rule = ("baseline scenario (1-2 radars, 2-3 LEO targets, two-body or perturbed truth, optional NTW impulse, odd-second starts) against variants: truth-only, greedy/random policy, "
-                "other noise seed, output every 2nd step, split into uneven propagateTo calls, permuted job completion, an extra target, an extra sensor, one target fewer")
+                "other noise seed, output every 2nd step, split into uneven propagateTo calls, permuted job completion, an extra target, an extra sensor, one target fewer, the first target dropped, targets listed in reverse order; targets of different mass and area with radiation pressure on; one variant per scenario in a fresh process")
     run.assumptions = []
     run.lean_phase()
     if run.args.replay:
